@@ -493,6 +493,17 @@ func Sleep(d time.Duration) {
 	Resume(2)
 }
 
+// TaskID identifies the calling task (stable within a run).
+func TaskID() int {
+	s := cur.Load()
+	if s == nil {
+		return -1
+	}
+	s.mu.Lock()
+	defer s.mu.Unlock()
+	return s.selfLocked().ID
+}
+
 // Stamp returns the next value of the global event sequence.
 func (s *Sim) Stamp() uint64 {
 	s.mu.Lock()
